@@ -230,6 +230,7 @@ func registerOverrides(e *Engine) {
 	})
 	e.reg(zz+"WaitIdle", func(in *interp, fr *frame, a []value) value { in.sch.waitIdle(); return nil })
 	e.reg(zz+"Yield", func(in *interp, fr *frame, a []value) value {
+		in.sch.cur.known = true
 		in.sch.yield("Yield")
 		if t := in.sch.cur; t.label != "" {
 			in.sch.schedLog = append(in.sch.schedLog, t.label)
@@ -237,6 +238,7 @@ func registerOverrides(e *Engine) {
 		return nil
 	})
 	e.reg(zz+"YieldAt", func(in *interp, fr *frame, a []value) value {
+		in.sch.cur.known = true
 		in.sch.yield("YieldAt")
 		name := in.sch.cur.label
 		if name == "" {
@@ -308,6 +310,7 @@ func registerOverrides(e *Engine) {
 	e.reg(zz+"Hold", func(in *interp, fr *frame, a []value) value { in.sch.held = true; return nil })
 	e.reg(zz+"Release", func(in *interp, fr *frame, a []value) value { in.sch.held = false; return nil })
 	e.reg(zz+"Stamp", func(in *interp, fr *frame, a []value) value {
+		in.sch.cur.known = true
 		in.sch.yield("Stamp")
 		if t := in.sch.cur; t.label != "" {
 			in.sch.schedLog = append(in.sch.schedLog, t.label)
